@@ -581,7 +581,7 @@ stubs! {
 /// (all scalar/date/uuid/inet/mac/enum prefixes and every unknown prefix), any length 0..=24:
 /// returns Ok((_, k)) with 1 <= k <= len, or Err; no panic, no OOB.
 #[kani::proof]
-#[kani::unwind(26)]
+#[kani::unwind(3)]
 fn c23_decode_key_scalar_prefixes_total() {
     let bytes: [u8; CAP] = kani::any();
     let len: usize = kani::any();
